@@ -55,7 +55,7 @@ var mapFields = map[string]string{ // field name -> key type
 }
 
 // directories under core/ that are not rewritten (real network client, logger which is stubbed)
-var skipDirs = []string{"core/pkg/redis", "core/pkg/logging", "core/vsys", "core/zz_verif"}
+var skipDirs = []string{"core/pkg/logging", "core/vsys", "core/zz_verif"}
 
 type counts map[string]int
 
@@ -202,6 +202,25 @@ func rewriteFile(rel string, src []byte) ([]byte, counts, bool, error) {
 			usesVsys = true
 			ce.Args = []ast.Expr{&ast.SelectorExpr{X: se.X, Sel: ast.NewIdent("Addr")}, &ast.SelectorExpr{X: se.X, Sel: ast.NewIdent("detect")}}
 			ce.Fun = &ast.SelectorExpr{X: ast.NewIdent(vsysName), Sel: ast.NewIdent("Detect")}
+			return false
+		})
+	}
+
+	// 1c. the proxy's own redis client (INFO probe of newly discovered nodes, PING health probe): its TCP dial becomes an
+	// in-memory connection to the scripted node, everything above the dial is the real client: x.DialContext(ctx, n, a) -> vsys.RedisDial(ctx, n, a)
+	if rel == "core/pkg/redis/conn.go" {
+		ast.Inspect(f, func(n ast.Node) bool {
+			ce, ok := n.(*ast.CallExpr)
+			if !ok || len(ce.Args) != 3 {
+				return true
+			}
+			se, ok := ce.Fun.(*ast.SelectorExpr)
+			if !ok || se.Sel.Name != "DialContext" {
+				return true
+			}
+			c["redis-dial"]++
+			usesVsys = true
+			ce.Fun = &ast.SelectorExpr{X: ast.NewIdent(vsysName), Sel: ast.NewIdent("RedisDial")}
 			return false
 		})
 	}
